@@ -3,13 +3,13 @@
 (plus extra checks listed in EXTRA), undoes it, and writes seeded/RESULTS.md.  Usage: tools/run_all_seeds.py [name-prefix ...]"""
 import json, os, subprocess, sys
 VERIF = os.path.dirname(os.path.dirname(os.path.abspath(__file__)))
-EXTRA = {"C03": ["C07"], "C07": ["C03", "C04"], "C09": ["C10"], "C08": ["C06"], "C10": ["C12"], "C11": ["C14"], "C17": ["C13", "C05"]}
+EXTRA = {"C03": ["C07"], "C07": ["C03", "C04"], "C09": ["C10"], "C08": ["C06"], "C10": ["C12", "C04"], "C11": ["C14"], "C17": ["C13", "C05"]}
 claimed = {c["property_id"] for c in json.load(open(os.path.join(VERIF, "MANIFEST.json")))["checks"]}
 rows = []
 names = sorted(os.listdir(os.path.join(VERIF, "seeded")))
 for name in names:
     d = os.path.join(VERIF, "seeded", name)
-    if not os.path.isdir(d) or (sys.argv[1:] and not any(name.startswith(p) for p in sys.argv[1:])):
+    if not os.path.isdir(d) or name == "retired" or (sys.argv[1:] and not any(name.startswith(p) for p in sys.argv[1:])):
         continue
     prop = name.split("-")[0]
     checks = [c for c in [prop] + EXTRA.get(prop, []) if c in claimed]
